@@ -125,13 +125,73 @@ theorem takeExact_append {k : Nat} (a rest : List Nat) (h : a.length = k) :
   subst h; simp
 
 /-! extLen / len7 -/
+theorem extLenAux_fuel (v : Nat) : ∀ f g, v ≤ f → v ≤ g → extLenAux f v = extLenAux g v := by
+  induction v using Nat.strongRecOn with
+  | _ v ih =>
+    intro f g hf hg
+    cases f with
+    | zero =>
+      have : v = 0 := by omega
+      subst this
+      cases g <;> simp [extLenAux]
+    | succ f =>
+      cases g with
+      | zero =>
+        have : v = 0 := by omega
+        subst this; simp [extLenAux]
+      | succ g =>
+        simp only [extLenAux]
+        split
+        · rfl
+        · rw [ih (v / 256) (by omega) f g (by omega) (by omega)]
+
+theorem extLen_eq (v : Nat) : extLen v = if v < 256 then 1 else 1 + extLen (v / 256) := by
+  unfold extLen
+  cases v with
+  | zero => simp [extLenAux]
+  | succ n =>
+    simp only [extLenAux]
+    split
+    · rfl
+    · rw [extLenAux_fuel ((n + 1) / 256) n ((n + 1) / 256) (by omega) (by omega)]
+
+theorem len7Aux_fuel (v : Nat) : ∀ f g, v ≤ f → v ≤ g → len7Aux f v = len7Aux g v := by
+  induction v using Nat.strongRecOn with
+  | _ v ih =>
+    intro f g hf hg
+    cases f with
+    | zero =>
+      have : v = 0 := by omega
+      subst this
+      cases g <;> simp [len7Aux]
+    | succ f =>
+      cases g with
+      | zero =>
+        have : v = 0 := by omega
+        subst this; simp [len7Aux]
+      | succ g =>
+        simp only [len7Aux]
+        split
+        · rfl
+        · rw [ih (v / 128) (by omega) f g (by omega) (by omega)]
+
+theorem len7_eq (v : Nat) : len7 v = if v < 128 then 1 else 1 + len7 (v / 128) := by
+  unfold len7
+  cases v with
+  | zero => simp [len7Aux]
+  | succ n =>
+    simp only [len7Aux]
+    split
+    · rfl
+    · rw [len7Aux_fuel ((n + 1) / 128) n ((n + 1) / 128) (by omega) (by omega)]
+
 theorem extLen_pos (v : Nat) : 1 ≤ extLen v := by
-  unfold extLen; split <;> omega
+  rw [extLen_eq]; split <;> omega
 
 theorem lt_pow_extLen (v : Nat) : v < 256 ^ extLen v := by
   induction v using Nat.strongRecOn with
   | _ v ih =>
-    unfold extLen
+    rw [extLen_eq]
     split
     · simpa using ‹v < 256›
     · have := ih (v / 256) (by omega)
@@ -142,7 +202,7 @@ theorem extLen_le_of_lt {v k : Nat} (hk : 1 ≤ k) (h : v < 256 ^ k) : extLen v 
   induction k generalizing v with
   | zero => omega
   | succ k ih =>
-    unfold extLen
+    rw [extLen_eq]
     split
     · omega
     · have hk' : 1 ≤ k := by
@@ -168,12 +228,12 @@ theorem extLen_mono {v w : Nat} (h : v ≤ w) : extLen v ≤ extLen w :=
   extLen_le_of_lt (extLen_pos w) (Nat.lt_of_le_of_lt h (lt_pow_extLen w))
 
 theorem len7_pos (v : Nat) : 1 ≤ len7 v := by
-  unfold len7; split <;> omega
+  rw [len7_eq]; split <;> omega
 
 theorem lt_pow_len7 (v : Nat) : v < 128 ^ len7 v := by
   induction v using Nat.strongRecOn with
   | _ v ih =>
-    unfold len7
+    rw [len7_eq]
     split
     · simpa using ‹v < 128›
     · have := ih (v / 128) (by omega)
@@ -184,7 +244,7 @@ theorem len7_le_of_lt {v k : Nat} (hk : 1 ≤ k) (h : v < 128 ^ k) : len7 v ≤ 
   induction k generalizing v with
   | zero => omega
   | succ k ih =>
-    unfold len7
+    rw [len7_eq]
     split
     · omega
     · have hk' : 1 ≤ k := by
